@@ -63,6 +63,7 @@ class Ctx:
         self.assumptions: list[str] = []
         self.notes: dict = {}
         self._nontrivial: set = set()
+        self._per_key: dict = {}
         self.level = "model_checking"
 
     @property
@@ -106,7 +107,9 @@ class Ctx:
             self.known_hits.setdefault(key, {"what": self.known[key], "count": 0, "example": payload})
             self.known_hits[key]["count"] += 1
             return
-        if len(self.violations) < 200:
+        n = self._per_key.get(key, 0)
+        self._per_key[key] = n + 1
+        if n < 3 and len(self.violations) < 600:
             self.violations.append({"key": key, "what": what, "payload": payload})
 
     # ---- the end -----------------------------------------------------------------------
@@ -142,7 +145,8 @@ class Ctx:
             "coverage": dict(self.cov),
             "assumptions": self.assumptions,
             "wall_s": round(wall, 2),
-            "violations": len(self.violations),
+            "violations": sum(self._per_key.values()),
+            "violation_keys": dict(sorted(self._per_key.items())),
             "known_findings_hit": {k: v["count"] for k, v in self.known_hits.items()},
             "spec_drift": self.drifts[:20],
             "models": self.models,
@@ -196,6 +200,10 @@ def main(argv=None) -> int:
     a = ap.parse_args(argv)
     seed = a.seed if a.seed is not None else int(os.environ.get("VERIF_SEED", "0") or 0)
     pid = a.pid.upper()
+    if os.environ.get("VERIF_DEBUG_DUMP"):
+        import faulthandler
+
+        faulthandler.dump_traceback_later(int(os.environ["VERIF_DEBUG_DUMP"]), repeat=False, exit=True)
     try:
         setup_repo_path()
         mod = importlib.import_module(f"props.{pid.lower()}")
